@@ -5,6 +5,7 @@ import (
 	"go/constant"
 	"go/token"
 	"go/types"
+	"sort"
 	"strings"
 
 	"golang.org/x/tools/go/ssa"
@@ -544,16 +545,103 @@ func EdgeFact(from, to *ssa.BasicBlock) *Fact {
 // chain (b included) that has a single predecessor ending in an If, the corresponding edge fact.
 // A fact whose condition is re-evaluated on a path from that edge to b cannot occur because the
 // condition's definition dominates the edge and SSA values are immutable per activation.
-func Facts(b *ssa.BasicBlock) []Fact {
+func Facts(b *ssa.BasicBlock) []Fact { return factsRec(b, 0) }
+
+func factsRec(b *ssa.BasicBlock, depth int) []Fact {
 	var res []Fact
 	for d := b; d != nil; d = d.Idom() {
 		if len(d.Preds) == 1 {
 			if f := EdgeFact(d.Preds[0], d); f != nil {
 				res = append(res, *f)
+				res = append(res, shortCircuitFacts(*f, depth)...)
 			}
 		}
 	}
 	return res
+}
+
+// shortCircuitFacts: the condition of a branch may be the value of a && b / a || b, which go/ssa represents as a phi
+// over the constant of the deciding operand and the value of the last operand: phi[false, b] for a && b. When the phi is
+// known to be true (false for ||) the last operand was evaluated and has that value, and everything that holds at the
+// block which evaluated it holds as well (among it: the earlier operands).
+func shortCircuitFacts(f Fact, depth int) []Fact {
+	if depth > 4 {
+		return nil
+	}
+	ff := f.StripNot()
+	phi, ok := ff.Cond.(*ssa.Phi)
+	if !ok {
+		// "err == nil" for an error variable that is set to a sentinel on some branches and stays nil on one: knowing it is
+		// nil tells which branch was taken
+		if cm, isCmp := f.Cmp(); isCmp && cm.Op == token.EQL {
+			x, y := cm.X, cm.Y
+			if IsNilConst(x) {
+				x, y = y, x
+			}
+			if p, isPhi := x.(*ssa.Phi); isPhi && IsNilConst(y) {
+				nilIdx, others := -1, true
+				for i, e := range p.Edges {
+					if IsNilConst(e) {
+						if nilIdx >= 0 {
+							return nil
+						}
+						nilIdx = i
+					} else if !knownNonNil(e) {
+						others = false
+					}
+				}
+				if nilIdx >= 0 && others {
+					return factsRec(p.Block().Preds[nilIdx], depth+1)
+				}
+			}
+		}
+		return nil
+	}
+	idx := ShortCircuitOperand(phi, ff.True)
+	if idx < 0 {
+		// several edges carrying the same value, the rest the constant !truth ("ok" cleared on one path): the value still
+		// has that truth, but which block evaluated it is not known
+		var v ssa.Value
+		for _, e := range phi.Edges {
+			if c, isC := e.(*ssa.Const); isC && c.Value != nil && c.Value.Kind() == constant.Bool {
+				if constant.BoolVal(c.Value) == ff.True {
+					return nil
+				}
+				continue
+			}
+			if v != nil && v != e {
+				return nil
+			}
+			v = e
+		}
+		if v == nil {
+			return nil
+		}
+		return append([]Fact{{v, ff.True}}, shortCircuitFacts(Fact{v, ff.True}, depth+1)...)
+	}
+	res := []Fact{{phi.Edges[idx], ff.True}}
+	res = append(res, shortCircuitFacts(Fact{phi.Edges[idx], ff.True}, depth+1)...)
+	res = append(res, factsRec(phi.Block().Preds[idx], depth+1)...)
+	return res
+}
+
+// ShortCircuitOperand returns the index of the only non-constant edge of a boolean phi all of whose other edges are the
+// constant !truth (so that phi == truth implies this edge was taken), or -1.
+func ShortCircuitOperand(phi *ssa.Phi, truth bool) int {
+	idx := -1
+	for i, e := range phi.Edges {
+		if c, isC := e.(*ssa.Const); isC && c.Value != nil && c.Value.Kind() == constant.Bool {
+			if constant.BoolVal(c.Value) == truth {
+				return -1
+			}
+			continue
+		}
+		if idx >= 0 {
+			return -1
+		}
+		idx = i
+	}
+	return idx
 }
 
 // FactsAt returns Facts of the block of an instruction.
@@ -791,4 +879,275 @@ func structRoot(v ssa.Value, idx int, seen map[ssa.Value]bool) string {
 		return fmt.Sprintf("call %s#%d", x.Name(), idx)
 	}
 	return fmt.Sprintf("%s#%d", v.Name(), idx)
+}
+
+// ---------------------------------------------------------------------------
+// exit points
+
+// ExitPoint is one way a function returns: the values it returns and the block whose guard facts describe when.
+// A source function written with early returns has one exit point per return statement. One written in single-exit
+// style (result variables - named or local - assigned in the branches, one return at the end) has a return whose
+// operands are phi nodes, or loads of result cells when a defer is present; it is split here into one exit point per
+// incoming alternative, located at the block that selects the alternative. Rules that ask "under which guard is this
+// result returned" therefore see the same thing for both styles.
+type ExitPoint struct {
+	Ret     *ssa.Return
+	Results []ssa.Value
+	Block   *ssa.BasicBlock // facts of this block (and Edge, if set) hold when these results are returned
+	Edge    *ssa.BasicBlock // successor of Block on the way to the return (nil: Block is the return's own block)
+}
+
+// Facts are the guard facts that hold at the exit point.
+func (e ExitPoint) Facts() []Fact {
+	fs := Facts(e.Block)
+	if e.Edge != nil {
+		if ef := EdgeFact(e.Block, e.Edge); ef != nil {
+			fs = append(fs, *ef)
+			fs = append(fs, shortCircuitFacts(*ef, 0)...)
+		}
+	}
+	return fs
+}
+
+// HasFact reports whether a fact satisfying pred holds at the exit point.
+func (e ExitPoint) HasFact(pred func(Fact) bool) bool {
+	for _, f := range e.Facts() {
+		if pred(f) {
+			return true
+		}
+	}
+	return false
+}
+
+// Result returns result i (nil when out of range).
+func (e ExitPoint) Result(i int) ssa.Value {
+	if i < 0 || i >= len(e.Results) {
+		return nil
+	}
+	return e.Results[i]
+}
+
+// ExitPoints lists the exit points of fn.
+func ExitPoints(fn *ssa.Function) []ExitPoint {
+	var res []ExitPoint
+	for _, ret := range Returns(fn) {
+		res = append(res, splitExit(ret)...)
+	}
+	return res
+}
+
+func splitExit(ret *ssa.Return) []ExitPoint {
+	b := ret.Block()
+	vals := make([]ssa.Value, len(ret.Results))
+	for i := range ret.Results {
+		vals[i] = ret.Results[i]
+	}
+	// 1. results loaded from result cells (defer spill, named results): the stores are the alternatives
+	cells := make([]*ssa.Alloc, len(vals))
+	anyCell := false
+	hasRunDefers := false
+	for _, in := range b.Instrs {
+		if _, ok := in.(*ssa.RunDefers); ok {
+			hasRunDefers = true
+		}
+	}
+	sigRes := ret.Parent().Signature.Results()
+	for i, v := range vals {
+		if u, ok := v.(*ssa.UnOp); ok && u.Op == token.MUL {
+			if a, ok := u.X.(*ssa.Alloc); ok && u.Block() == b {
+				// a result cell: the spill slot of a function with defers, or a named result - not an ordinary local
+				named := i < sigRes.Len() && sigRes.At(i).Name() != "" && sigRes.At(i).Name() == a.Comment
+				if hasRunDefers || named {
+					cells[i] = a
+					anyCell = true
+				}
+			}
+		}
+	}
+	if anyCell {
+		// blocks that store to a result cell
+		blocks := map[*ssa.BasicBlock]bool{}
+		for _, a := range cells {
+			if a == nil {
+				continue
+			}
+			for _, st := range storesTo(a) {
+				blocks[st.Block()] = true
+			}
+		}
+		var out []ExitPoint
+		for blk := range blocks {
+			if !reaches(blk, b) {
+				continue
+			}
+			rs := make([]ssa.Value, len(vals))
+			for i, a := range cells {
+				if a == nil {
+					rs[i] = vals[i]
+					continue
+				}
+				rs[i] = lastStoreUpTo(a, blk)
+			}
+			ep := ExitPoint{Ret: ret, Results: rs, Block: blk}
+			out = append(out, expandPhis(ep, 0)...)
+		}
+		if len(out) > 0 {
+			sortExitPoints(out)
+			return out
+		}
+	}
+	return expandPhis(ExitPoint{Ret: ret, Results: vals, Block: b}, 0)
+}
+
+// expandPhis splits an exit point whose results are phi nodes of its block into one exit point per predecessor.
+func expandPhis(e ExitPoint, depth int) []ExitPoint {
+	if depth > 4 {
+		return []ExitPoint{e}
+	}
+	blk := e.Block
+	var phiBlock *ssa.BasicBlock
+	for _, v := range e.Results {
+		if p, ok := v.(*ssa.Phi); ok && (p.Block() == blk || (e.Edge == nil && p.Block().Dominates(blk))) {
+			phiBlock = p.Block()
+			break
+		}
+	}
+	if phiBlock == nil {
+		return []ExitPoint{e}
+	}
+	// guards between the merge and the return ("if err != nil { return zero, err }") select among the alternatives
+	nilness := map[ssa.Value]int{} // phi -> +1 known non-nil, -1 known nil at the return
+	if phiBlock != blk {
+		for _, f := range Facts(blk) {
+			if cm, ok := f.Cmp(); ok && (cm.Op == token.EQL || cm.Op == token.NEQ) {
+				x, y := cm.X, cm.Y
+				if IsNilConst(x) {
+					x, y = y, x
+				}
+				if p, isPhi := x.(*ssa.Phi); isPhi && IsNilConst(y) && p.Block() == phiBlock {
+					if cm.Op == token.NEQ {
+						nilness[p] = 1
+					} else {
+						nilness[p] = -1
+					}
+				}
+			}
+		}
+	}
+	var out []ExitPoint
+	for j, pred := range phiBlock.Preds {
+		rs := make([]ssa.Value, len(e.Results))
+		feasible := true
+		for i, v := range e.Results {
+			if p, ok := v.(*ssa.Phi); ok && p.Block() == phiBlock {
+				rs[i] = p.Edges[j]
+				switch nilness[p] {
+				case 1:
+					if IsNilConst(rs[i]) {
+						feasible = false
+					}
+				case -1:
+					if knownNonNil(rs[i]) {
+						feasible = false
+					}
+				}
+			} else {
+				rs[i] = v
+			}
+		}
+		if !feasible {
+			continue
+		}
+		ne := ExitPoint{Ret: e.Ret, Results: rs, Block: pred, Edge: phiBlock}
+		// the predecessor may merge again (phi of phi)
+		sub := ExitPoint{Ret: e.Ret, Results: rs, Block: pred}
+		hasPhiInPred := false
+		for _, v := range rs {
+			if p, ok := v.(*ssa.Phi); ok && p.Block() == pred {
+				hasPhiInPred = true
+			}
+		}
+		if hasPhiInPred {
+			out = append(out, expandPhis(sub, depth+1)...)
+		} else {
+			out = append(out, ne)
+		}
+	}
+	return out
+}
+
+// onlyJumps: every block on the way from a to b (a dominates b) ends in an unconditional jump - b is just the tail of a.
+func onlyJumps(a, b *ssa.BasicBlock) bool {
+	for cur := a; cur != b; {
+		if len(cur.Succs) != 1 {
+			return false
+		}
+		cur = cur.Succs[0]
+		if cur == a {
+			return false
+		}
+	}
+	return true
+}
+
+func dominatesStrict(a, b *ssa.BasicBlock) bool { return a != b && a.Dominates(b) }
+
+func reaches(from, to *ssa.BasicBlock) bool {
+	seen := map[*ssa.BasicBlock]bool{}
+	var rec func(b *ssa.BasicBlock) bool
+	rec = func(b *ssa.BasicBlock) bool {
+		if b == to {
+			return true
+		}
+		if seen[b] {
+			return false
+		}
+		seen[b] = true
+		for _, s := range b.Succs {
+			if rec(s) {
+				return true
+			}
+		}
+		return false
+	}
+	return rec(from)
+}
+
+// lastStoreUpTo returns the value cell a holds at the end of block blk: the last store in blk, else the closest store
+// in a dominator of blk, else nil.
+func lastStoreUpTo(a *ssa.Alloc, blk *ssa.BasicBlock) ssa.Value {
+	for d := blk; d != nil; d = d.Idom() {
+		var last *ssa.Store
+		for _, in := range d.Instrs {
+			if st, ok := in.(*ssa.Store); ok && st.Addr == ssa.Value(a) {
+				last = st
+			}
+		}
+		if last != nil {
+			return last.Val
+		}
+	}
+	return nil
+}
+
+func sortExitPoints(l []ExitPoint) {
+	sort.Slice(l, func(i, j int) bool { return l[i].Block.Index < l[j].Block.Index })
+}
+
+// knownNonNil: a load of a package-level error variable, the result of fmt.Errorf / errors.New, or a MakeInterface.
+func knownNonNil(v ssa.Value) bool {
+	switch x := v.(type) {
+	case *ssa.UnOp:
+		if _, ok := x.X.(*ssa.Global); ok && x.Op == token.MUL {
+			return true
+		}
+	case *ssa.Call:
+		switch CalleeFullName(x) {
+		case "fmt.Errorf", "errors.New":
+			return true
+		}
+	case *ssa.MakeInterface:
+		return true
+	}
+	return false
 }
